@@ -11,23 +11,31 @@ Definition dec_call (v : list int) : option lcall :=
            else if N.eqb n 6 then Some LHealth else if N.eqb n 7 then Some LSendBestEffort else if N.eqb n 8 then Some LSendReliable
            else if N.eqb n 9 then Some LPing else if N.eqb n 10 then Some LJoin else if N.eqb n 11 then Some LAdvance
            else if N.eqb n 12 then Some LReap else if N.eqb n 20 then Some LShutdown else if N.eqb n 21 then Some LLeave
-           else if N.eqb n 22 then Some LUpdateNode else if N.eqb n 23 then Some LLeave else if N.eqb n 24 then Some LShutdown else if N.eqb n 25 then Some LUpdateNode else if N.eqb n 26 then Some LLeave else None
+           else if N.eqb n 22 then Some LUpdateNode else if N.eqb n 23 then Some LLeave else if N.eqb n 24 then Some LShutdown else if N.eqb n 25 then Some LUpdateNode else if N.eqb n 26 then Some LLeave
+           else if N.eqb n 27 then Some LLeave (* a timeout long enough for the departure to go out *) else if N.eqb n 28 then Some LLeave (* no timeout *) else None
   | _ => None
   end.
 Fixpoint dec_list {A B} (f : A -> option B) (l : list A) : option (list B) :=
   match l with [] => Some [] | x :: l' => match f x, dec_list f l' with Some y, Some ys => Some (y :: ys) | _, _ => None end end.
 
-(* obs per call: [panicked; overran_its_timeout; used_network_after_shutdown] ; last obs: [goroutines_left; sends_after_shutdown; dials_after_shutdown; transport_shutdowns_beyond_the_first] *)
-Fixpoint monitor_from (i : N) (cs : list lcall) (obs : list (list int)) : verdict :=
+(* obs per call: [panicked; overran_its_timeout (or never came back); used_network_after_shutdown; Leave returned an error (rows of the
+   random sequences only)] ; last obs: [goroutines_left; sends_after_shutdown; dials_after_shutdown; transport_shutdowns_beyond_the_first].
+   [leftok]: a Leave has returned nil; from then on Leave is a no-op: it returns nil (505), without waiting (501). *)
+Definition is_leave (c : lcall) : bool := match c with LLeave => true | _ => false end.
+Fixpoint monitor_from (i : N) (leftok : bool) (cs : list lcall) (obs : list (list int)) : verdict :=
   match cs, obs with
   | _ :: cs', [p; slow; net] :: obs' =>
-      if bi p then mkV 500 i else if bi slow then mkV 501 i else if bi net then mkV 502 i else monitor_from (i + 1) cs' obs'
+      if bi p then mkV 500 i else if bi slow then mkV 501 i else if bi net then mkV 502 i else monitor_from (i + 1) leftok cs' obs'
+  | c :: cs', [p; slow; net; e] :: obs' =>
+      if bi p then mkV 500 i else if bi slow then mkV 501 i else if bi net then mkV 502 i
+      else if is_leave c && leftok && bi e then mkV 505 i
+      else monitor_from (i + 1) (leftok || (is_leave c && negb (bi e))) cs' obs'
   | _, _ => vok
   end.
 
 Fixpoint compare_from (i : N) (ms : list lres) (obs : list (list int)) : verdict :=
   match ms, obs with
-  | m :: ms', [p; _; _] :: obs' => if negb (Bool.eqb (lpanic m) (bi p)) then mkV 70 i else compare_from (i + 1) ms' obs'
+  | m :: ms', [p; _; _] :: obs' | m :: ms', [p; _; _; _] :: obs' => if negb (Bool.eqb (lpanic m) (bi p)) then mkV 70 i else compare_from (i + 1) ms' obs'
   | _, _ => vok
   end.
 
@@ -35,7 +43,7 @@ Definition check_case (cs : list int * (list (list int) * list (list int))) : ve
   match dec_list dec_call (fst (snd cs)) with
   | Some calls =>
       let obs := snd (snd cs) in
-      let v := monitor_from 0 calls obs in
+      let v := monitor_from 0 false calls obs in
       if negb (N.eqb (vcode v) 0) then v
       else match nth (length calls) obs [] with
            | [gl; sa; da; sc] => if negb (Uint63.eqb gl 0) then mkV 503 0
